@@ -40,6 +40,7 @@ Step ==
                              /\ (e'.sitN > 0 => PrintT(<<"HELD", e'.sitN>>))             \* coverage: words held back for a carry
          [] ev.ev = "enc_refused" -> ~AllInSupport(ev.items) /\ e' = e /\ EncObserved(e, ev) /\ UNCHANGED d
          [] ev.ev = "clone" -> e' = e /\ EncObserved(e, ev) /\ UNCHANGED d
+                               /\ (e.sitN > 0 => PrintT(<<"CLONE-HELD", e.sitN>>))        \* coverage: a clone taken while words are held back
          \* a decoder is created over the sealed words (get_decoder(), or RangeDecoder(get_compressed()))
          [] ev.ev = "decoder" -> e' = e /\ d' = DecNew(Sealed(e)) /\ ev.maybe_exhausted = MaybeExhausted(d')
          \* a decoder over arbitrary words
